@@ -196,9 +196,21 @@ type SeqCase struct {
 
 var capChoices = []int{-7, -1, 0, 1, 1, 2, 2, 3, 3, 4, 6, 10}
 
-func drawTimeout(t *rapid.T) int {
+// drawWaitingTimeout draws a timeout of at least 1 ms (consumer loops of the concurrent scenarios).
+func drawWaitingTimeout(t *rapid.T) int {
 	if rapid.IntRange(0, 9).Draw(t, "long") == 0 {
 		return rapid.IntRange(1, 30).Draw(t, "ms")
+	}
+	return rapid.IntRange(1, 6).Draw(t, "ms")
+}
+
+func drawTimeout(t *rapid.T) int {
+	switch rapid.IntRange(0, 9).Draw(t, "long") {
+	case 0:
+		return rapid.IntRange(1, 30).Draw(t, "ms")
+	case 1:
+		// a timeout that has elapsed before the call starts (seed C11-s23): the get looks once and returns
+		return rapid.SampledFrom([]int{0, 0, -1, -1000}).Draw(t, "elapsed-ms")
 	}
 	return rapid.IntRange(1, 6).Draw(t, "ms")
 }
@@ -256,6 +268,14 @@ type fifo struct {
 	cap int
 }
 
+// brief renders a model content for messages (long backlogs abbreviated).
+func brief(q []int) string {
+	if len(q) <= 16 {
+		return fmt.Sprint(q)
+	}
+	return fmt.Sprintf("[%d %d %d … %d %d] (%d elements)", q[0], q[1], q[2], q[len(q)-2], q[len(q)-1], len(q))
+}
+
 func (m *fifo) full() bool { return m.cap > 0 && len(m.q) >= m.cap }
 
 // put returns whether the element is accepted.
@@ -293,11 +313,14 @@ func runSeqSingle(c SeqCase) *pbt.Result {
 func seqSingle(c SeqCase, announce func(string)) *pbt.Result {
 	q := queue.NewRequestQueue(c.Cap)
 	var failed, over []interface{}
+	// the callbacks ask the queue for its size, as a callback that logs "queue full (n waiting)" does (seed C11-s22);
+	// a refused put leaves the content unchanged, so the failure callback sees the size before the put
+	var sizeInFailed []int
 	if !c.NoFail {
-		q.Failed = func(v interface{}) { failed = append(failed, v) }
+		q.Failed = func(v interface{}) { sizeInFailed = append(sizeInFailed, q.Size()); failed = append(failed, v) }
 	}
 	if !c.NoOver {
-		q.Overflowed = func(v interface{}) { over = append(over, v) }
+		q.Overflowed = func(v interface{}) { _ = q.Size(); _ = q.GetCapacity(); over = append(over, v) }
 	}
 	m := &fifo{cap: c.Cap}
 	cl := map[string]bool{}
@@ -306,14 +329,19 @@ func seqSingle(c SeqCase, announce func(string)) *pbt.Result {
 		v := i + 1
 		nf, no := len(failed), len(over)
 		var wantFailed, wantOver []int
-		at := fmt.Sprintf("op %d (%s) with capacity %d and model content %v", i, op.K, m.cap, m.q)
+		at := fmt.Sprintf("op %d (%s) with capacity %d and model content %s", i, op.K, m.cap, brief(m.q))
 		announce(at)
 		switch op.K {
 		case "put":
+			before := len(m.q)
 			want := m.put(v)
+			sizeInFailed = sizeInFailed[:0]
 			got := q.Put(v)
 			if got != want {
 				return pbt.Fail("%s: Put(%d) returned %v, model says %v", at, v, got, want)
+			}
+			if !want && !c.NoFail && (len(sizeInFailed) != 1 || sizeInFailed[0] != before) {
+				return pbt.Fail("%s: Size() read inside the failure callback of the refused Put(%d) = %v, the queue holds %d elements", at, v, sizeInFailed, before)
 			}
 			if !want {
 				refusals++
@@ -430,7 +458,7 @@ func keys(m map[string]bool) []string {
 
 var specSeqSingle = pbt.Register(pbt.Spec[SeqCase]{
 	Prop: "C11", Name: "seq-single",
-	Rule:  "rapid-generated histories of 1-60 operations (put, put-force, blocking get only when non-empty, get-no-wait, get-timeout 1-30 ms (in three of seven cases the server-time offset of dateutil changes by -3 ms .. +1 h while the get waits; the timeout is elapsed time), clear, set-capacity incl. 0/negative/below current size, size) on one RequestQueue with recording Failed/Overflowed callbacks (each sometimes left nil), compared step by step with a slice+capacity model; non-trivial = history with at least one refused put or one eviction; distinct by operation sequence",
+	Rule:  "rapid-generated histories of 1-60 operations (put, put-force, blocking get only when non-empty, get-no-wait, get-timeout 1-30 ms and, one in ten, 0 / -1 / -1000 ms (in three of seven cases the server-time offset of dateutil changes by -3 ms .. +1 h while the get waits; the timeout is elapsed time), clear, set-capacity incl. 0/negative/below current size, size) on one RequestQueue with recording Failed/Overflowed callbacks that read Size()/GetCapacity() (each sometimes left nil); unbounded queues with a backlog of 70000 in the boundary histories, compared step by step with a slice+capacity model; non-trivial = history with at least one refused put or one eviction; distinct by operation sequence",
 	Quick: 8000, Thorough: 400000,
 	Draw: func(t *rapid.T) SeqCase {
 		return SeqCase{
@@ -491,6 +519,11 @@ func TestSeqSingleBoundaries(t *testing.T) {
 		{Cap: 2, Ops: []SOp{{K: "timed", A: 1}, {K: "timed", A: 2}, {K: "timed", A: 3}, {K: "timed", A: 30}, {K: "put"}, {K: "timed", A: 30}, {K: "timed", A: 7}}},
 		{Cap: 2, NoFail: true, NoOver: true, Ops: cat(rep("put", 4), rep("force", 3), rep("nowait", 3))},
 		{Cap: 1, Ops: cat(rep("put", 1), rep("get", 1), rep("put", 1), rep("get", 1), rep("put", 2), rep("nowait", 2))},
+		{Cap: 2, Ops: []SOp{{K: "timed", A: 0}, {K: "timed", A: -1}, {K: "put"}, {K: "timed", A: 0}, {K: "timed", A: -1000}, {K: "timed", A: 0}}},
+		// unbounded means unbounded: backlogs beyond 2^16 (seed C11-s24)
+		{Cap: 0, Ops: cat(rep("put", 66000), rep("force", 10), rep("put", 10), rep("nowait", 5), rep("size", 1))},
+		{Cap: -1, Ops: cat(rep("force", 33000), rep("put", 33000), rep("force", 3), rep("get", 5))},
+		{Cap: 3, Ops: cat(rep("put", 4), []SOp{{K: "cap", A: 0}}, rep("put", 65600), rep("force", 2), rep("nowait", 3))},
 	} {
 		specSeqSingle.RunCase(t, c)
 	}
@@ -549,7 +582,7 @@ func seqDouble(c DSeqCase, announce func(string)) *pbt.Result {
 	refusals, evictions := 0, 0
 	for i, op := range c.Ops {
 		v := i + 1
-		at := fmt.Sprintf("op %d (%s) with capacities %d/%d and model content %v / %v", i, op.K, m[1].cap, m[2].cap, m[1].q, m[2].q)
+		at := fmt.Sprintf("op %d (%s) with capacities %d/%d and model content %s / %s", i, op.K, m[1].cap, m[2].cap, brief(m[1].q), brief(m[2].q))
 		announce(at)
 		switch op.K {
 		case "put1", "put2":
@@ -638,11 +671,14 @@ func seqDouble(c DSeqCase, announce func(string)) *pbt.Result {
 			panic("unknown op " + op.K)
 		}
 		if s1, s2, s := q.Size1(), q.Size2(), q.Size(); s1 != len(m[1].q) || s2 != len(m[2].q) || s != s1+s2 {
-			return pbt.Fail("%s: Size1/Size2/Size = %d/%d/%d afterwards, model holds %v / %v", at, s1, s2, s, m[1].q, m[2].q)
+			return pbt.Fail("%s: Size1/Size2/Size = %d/%d/%d afterwards, model holds %s / %s", at, s1, s2, s, brief(m[1].q), brief(m[2].q))
 		}
 		// content, observed without removing anything (the elements are integers)
-		if g1, g2 := q.ToString1(), q.ToString2(); g1 != joinInts(m[1].q) || g2 != joinInts(m[2].q) {
-			return pbt.Fail("%s: content afterwards is [%s] / [%s], model holds %v / %v", at, g1, g2, m[1].q, m[2].q)
+		// (long backlogs: after every 1000th operation and after the last, the rendering is linear in the content)
+		if len(m[1].q)+len(m[2].q) <= 200 || i%1000 == 0 || i == len(c.Ops)-1 {
+			if g1, g2 := q.ToString1(), q.ToString2(); g1 != joinInts(m[1].q) || g2 != joinInts(m[2].q) {
+				return pbt.Fail("%s: content afterwards is [%.300s] / [%.300s], model holds %s / %s", at, g1, g2, brief(m[1].q), brief(m[2].q))
+			}
 		}
 	}
 	want := append(append([]int(nil), m[1].q...), m[2].q...)
@@ -663,7 +699,7 @@ func seqDouble(c DSeqCase, announce func(string)) *pbt.Result {
 
 var specSeqDouble = pbt.Register(pbt.Spec[DSeqCase]{
 	Prop: "C11", Name: "seq-double",
-	Rule:  "rapid-generated histories of 1-60 operations (put1/2, put-force1/2, blocking get only when non-empty, get-no-wait, get-timeout 1-30 ms (in three of seven cases the server-time offset of dateutil changes by -3 ms .. +1 h while the get waits; the timeout is elapsed time), clear, set-capacity, size) on one RequestDoubleQueue compared step by step with a two-slice model that serves queue 1 first; refusal/eviction observed through return values, Size1/Size2 and content (the callbacks are unexported); non-trivial = history with at least one refused put or one eviction; distinct by operation sequence",
+	Rule:  "rapid-generated histories of 1-60 operations (put1/2, put-force1/2, blocking get only when non-empty, get-no-wait, get-timeout 1-30 ms and, one in ten, 0 / -1 / -1000 ms (in three of seven cases the server-time offset of dateutil changes by -3 ms .. +1 h while the get waits; the timeout is elapsed time), clear, set-capacity, size) on one RequestDoubleQueue compared step by step with a two-slice model that serves queue 1 first; refusal/eviction observed through return values, Size1/Size2 and content (the callbacks are unexported); non-trivial = history with at least one refused put or one eviction; distinct by operation sequence",
 	Quick: 6000, Thorough: 300000,
 	Draw: func(t *rapid.T) DSeqCase {
 		return DSeqCase{
@@ -690,6 +726,9 @@ func TestSeqDoubleBoundaries(t *testing.T) {
 		{Cap1: 3, Cap2: 3, Ops: cat(rep("put1", 3), rep("put2", 3), []SOp{{K: "cap", A: 1, B: 1}}, rep("force1", 1), rep("force2", 1), rep("put1", 1), rep("put2", 1), rep("nowait", 3))},
 		{Cap1: 2, Cap2: 2, Ops: []SOp{{K: "timed", A: 2}, {K: "put2"}, {K: "timed", A: 9}, {K: "put2"}, {K: "put1"}, {K: "timed", A: 9}, {K: "timed", A: 9}, {K: "timed", A: 4}}},
 		{Cap1: 2, Cap2: 2, Ops: cat(rep("put1", 2), rep("put2", 2), rep("clear", 1), rep("put2", 1), rep("put1", 1), rep("get", 2))},
+		{Cap1: 2, Cap2: 2, Ops: []SOp{{K: "timed", A: 0}, {K: "timed", A: -1}, {K: "put2"}, {K: "timed", A: 0}, {K: "timed", A: -1000}}},
+		{Cap1: 0, Cap2: 2, Ops: cat(rep("put1", 66000), rep("force1", 5), rep("put1", 5), rep("put2", 3), rep("nowait", 4))},
+		{Cap1: 2, Cap2: -1, Ops: cat(rep("put2", 33000), rep("force2", 33000), rep("put2", 5), rep("put1", 3), rep("get", 4))},
 	} {
 		specSeqDouble.RunCase(t, c)
 	}
